@@ -31,7 +31,7 @@ def gates(tier):
     return {'list_calls': 4000, 'unordered_calls': 1500, 'ordered_calls': 800, 'multi_list_calls': 600,
             'grouped_calls': 400, 'no_partial_credit_calls': 600, 'permutation_sets': 150,
             'munkres_solves_validated': 2000, 'nontrivial_unordered': 800, 'singlelist_subgrader_calls': 1000,
-            'direct_order_calls': 30000, 'grouped_multi_calls': 1500, 'grouped_multi_list_calls': 800, 'grouped_no_partial_credit_calls': 400, 'grouped_sparse_calls': 300, 'grouped_calls_group_larger_than_group_count': 300}
+            'direct_order_calls': 30000, 'grouped_multi_calls': 1500, 'grouped_multi_list_calls': 800, 'grouped_no_partial_credit_calls': 400, 'grouped_sparse_calls': 300, 'grouped_calls_group_larger_than_group_count': 300, 'sibling_layouts': 100, 'sibling_lists_checked': 400, 'sibling_formula_problems': 100}
 
 
 def install_tap(ctx):
@@ -644,6 +644,96 @@ def run_direct_order(ctx):
             ctx.nontrivial(['direct', C])
 
 
+def run_siblings(ctx):
+    """Ordered lists: "the i-th result is exactly what the i-th subgrader returns for the i-th answer and the i-th input" -- a
+    subgrader is also told its siblings (docs/grading_math/formula_grader.md: sibling_j is the j-th student input; with
+    grouping, the j-th member of the group).  (a) a recording item grader sees exactly one sibling entry per (grouped) input,
+    in input order; (b) hand-listed formula problems over layouts with non-formula boxes and groups in front."""
+    from mitxgraders import ListGrader, FormulaGrader, NumericalGrader, StringGrader
+    from mitxgraders.baseclasses import ItemGrader
+    rng = ctx.rng
+    seen = []
+
+    class Recorder(ItemGrader):
+        def check_response(self, answer, student_input, **kwargs):
+            sibs = kwargs.get('siblings')
+            seen.append((student_input, None if sibs is None else [s_['input'] for s_ in sibs], None if sibs is None else [s_['grader'] for s_ in sibs]))
+            ok = answer['expect'] == student_input
+            return {'ok': ok, 'grade_decimal': 1 if ok else 0, 'msg': ''}
+
+    for rep in range(ctx.n(160, 3000)):
+        ngroups = rng.randint(2, 5)
+        sizes = [rng.choice([1, 1, 2, 3]) for _ in range(ngroups)]
+        if all(z == 1 for z in sizes) and rng.random() < 0.7:
+            sizes[rng.randrange(ngroups)] = 2
+        slots = [gi + 1 for gi, z in enumerate(sizes) for _ in range(z)]
+        rng.shuffle(slots)
+        n = len(slots)
+        inputs = ['in%d' % p_ for p_ in range(n)]
+        members = {gi: [inputs[p_] for p_, v in enumerate(slots) if v == gi + 1] for gi in range(ngroups)}
+        answers, subgraders = [], []
+        for gi, z in enumerate(sizes):
+            if z == 1:
+                answers.append(members[gi][0])
+                subgraders.append(Recorder())
+            else:
+                answers.append(list(members[gi]))
+                subgraders.append(ListGrader(subgraders=Recorder(), ordered=True))
+        del seen[:]
+        g = ListGrader(answers=answers, subgraders=subgraders, ordered=True, grouping=slots)
+        out = lib.call(ctx, g, None, list(inputs))
+        ctx.ev()
+        ctx.count('list_calls')
+        ctx.count('sibling_layouts')
+        wit = {'grouping': slots, 'inputs': inputs, 'answers': answers, 'outcome': out.brief()}
+        ctx.nontrivial(['siblings', slots])
+        if not out.returned or [e['grade_decimal'] for e in out.value['input_list']] != [1] * n:
+            ctx.violation('C05:siblings:verdict', 'every box holds its own answer: %r' % (out.brief(),), wit)
+            continue
+        outer = [members[gi][0] if sizes[gi] == 1 else list(members[gi]) for gi in range(ngroups)]
+        for student_input, sibs, graders in seen:
+            gi = next(k for k in range(ngroups) if student_input in members[k])
+            want = outer if sizes[gi] == 1 else list(members[gi])
+            ctx.count('sibling_lists_checked')
+            if sibs != want:
+                ctx.violation('C05:siblings:' + ('outer_list' if sizes[gi] == 1 else 'inside_group'),
+                              'the subgrader of box %r was told siblings %r; the (grouped) inputs are %r' % (student_input, sibs, want), wit)
+                break
+            if sizes[gi] == 1 and any(a is not b for a, b in zip(graders, subgraders)):
+                ctx.violation('C05:siblings:grader_entries', 'sibling entries do not name the subgraders of their boxes', wit)
+                break
+
+    F = lambda: FormulaGrader(variables=['x'])
+    table = [
+        # answers, subgraders, grouping, inputs, expected grades
+        (['cat', 'x', '2*sibling_2'], lambda: [StringGrader(), F(), F()], None, ['cat', 'x', '2*x'], [1, 1, 1]),
+        (['cat', 'x', '2*sibling_2'], lambda: [StringGrader(), F(), F()], None, ['cat', 'x+1', '2*x'], [1, 0, 0]),
+        (['x', 'cat', 'sibling_1^2', 'dog', 'sibling_3+1'], lambda: [F(), StringGrader(), F(), StringGrader(), F()], None, ['x', 'cat', 'x^2', 'dog', 'x^2+1'], [1] * 5),
+        (['x', 'cat', 'sibling_1^2', 'dog', 'sibling_3+1'], lambda: [F(), StringGrader(), F(), StringGrader(), F()], None, ['2*x', 'cat', '4*x^2', 'dog', '4*x^2+1'], [0, 1, 1, 1, 1]),
+        ([['cat', 'dog'], 'x', 'sibling_2^2', 'sibling_3+1'], lambda: [ListGrader(subgraders=StringGrader()), F(), F(), F()], [1, 1, 2, 3, 4],
+         ['dog', 'cat', 'x', 'x^2', 'x^2+1'], [1] * 5),
+        (['x', ['cat', 'dog'], 'sibling_1^2', ['a', 'b', 'c'], 'sibling_3+sibling_1'], lambda: [F(), ListGrader(subgraders=StringGrader()), F(), ListGrader(subgraders=StringGrader()), F()],
+         [1, 2, 3, 4, 2, 4, 5, 4], ['x', 'dog', 'x^2', 'c', 'cat', 'a', 'x^2+x', 'b'], [1] * 8),
+        (['5', 'cat', 'sibling_1+1'], lambda: [NumericalGrader(), StringGrader(), NumericalGrader()], None, ['5', 'cat', '6'], [1, 1, 1]),
+        (['5', 'cat', 'sibling_1+1'], lambda: [NumericalGrader(), StringGrader(), NumericalGrader()], None, ['7', 'cat', '8'], [0, 1, 1]),
+        ([['x', 'sibling_1+1'], ['x^2', 'sibling_1*2']], lambda: ListGrader(subgraders=F(), ordered=True), [1, 2, 1, 2], ['x', 'x^2', 'x+1', '2*x^2'], [1] * 4),
+    ]
+    for rep in range(ctx.pick(2, 8)):
+        for answers, mk, grouping, inputs, want in table:
+            g = ListGrader(answers=answers, subgraders=mk(), ordered=True, **({'grouping': grouping} if grouping else {}))
+            out = lib.call(ctx, g, None, list(inputs))
+            ctx.ev()
+            ctx.count('list_calls')
+            ctx.count('sibling_formula_problems')
+            wit = {'answers': answers, 'grouping': grouping, 'inputs': inputs, 'expected_grades': want, 'outcome': out.brief()}
+            ctx.nontrivial(['sibling_formula', answers, inputs])
+            if not out.returned:
+                ctx.violation('C05:siblings:formula_problem:raises', repr(out.exc)[:200], wit)
+            elif [e['grade_decimal'] for e in out.value['input_list']] != want:
+                ctx.violation('C05:siblings:formula_problem:grades', 'grades %r, by the documented meaning of sibling_j %r'
+                              % ([e['grade_decimal'] for e in out.value['input_list']], want), wit)
+
+
 def run(ctx):
     install_tap(ctx)
     run_direct_order(ctx)
@@ -652,6 +742,7 @@ def run(ctx):
     run_grouped_multi(ctx)
     run_explicit_ok(ctx)
     run_singlelist_subgrader(ctx)
+    run_siblings(ctx)
     ctx.count('munkres_solves_validated', TAP['solves'])
     for before, out, prob in TAP['bad'][:3]:
         ctx.violation('C05:munkres_tap', 'a solve during grading was wrong: %s' % prob, {'matrix': before, 'result': out})
